@@ -454,6 +454,7 @@ func fillEquivalence(p *Prog, r *Rule, res *productResult, impl *ssa.Function, w
 }
 
 func checkC01(p *Prog, rp *Report) {
+	defer stateRule(p, rp, "C01-STATE", p.Func("version", "Compare"))
 	rp.Level = "proof"
 	rp.Explanation = "C01-RUN: the run comparator reached from version.Compare is interpreted abstractly (SSA, lazily revealed input strings of unbounded length over the 70 admitted bytes + END) in lock step with a transliteration of dpkg's verrevcmp; every pair of returns reachable in the product must agree in sign, no panic, no loop that stops consuming input. C01-W: the weight function's preorder on the alphabet equals dpkg's order(). C01-SEQ: Compare = epoch, then upstream, then revision, first non-zero wins, operands in order. C01-SORT: Len and Swap of the sort adapter on a three-element slice; Less(i,j) for all 100 pairs of ten concrete versions (epochs, equal elements, upstreams that are equal under dpkg but spelled differently, leading zeros, tilde, empty parts) equals \"sorts strictly before\" in the reference order."
 	rp.NotDecided = "nothing beyond the trusted base."
@@ -670,6 +671,7 @@ func checkCompareSeq(p *Prog, r *Rule, cmp *ssa.Function) {
 }
 
 func checkC02(p *Prog, rp *Report) {
+	defer stateRule(p, rp, "C02-STATE", p.Func("version", "Compare"), p.Method("version", "Slice", "Less"), p.Method("version", "Slice", "Swap"))
 	rp.Level = "proof"
 	rp.Explanation = "C02-EQUIV: the comparator is sign-equal to the reference order on all pairs (same product as C01-RUN); the reference order is the lexicographic order of canonical token keys, a total preorder (DESIGN C02-TRANS), so reflexivity, antisymmetry, transitivity and congruence are inherited. C02-SEQ: Compare's lexicographic composition preserves them. C02-SORT: Len/Swap/Less of the sort adapter."
 	rp.NotDecided = "sort.Sort itself (standard library)."
